@@ -15,6 +15,11 @@ lookup      get_sample_index(t, policy): all strictly increasing time lists of l
             rationals.
 lookup-dup  the same with time lists that contain one duplicated time; any index with the same time value
             as the reference answer is accepted.
+lookup-history   (E2) call histories on ONE trajectory object: the same number in s, ms, min, h in all 24 orders,
+            in every ordered pair of units with mixed UnitValue / str forms, interleaved over the three policies,
+            and long histories over all numbers x units x policies, run twice; every answer against the oracle.
+accessor-history (E2) every species form x position form x triple on ONE object, forwards then backwards; the
+            trajectory (data, t, system state) must be unchanged after the reads.
 simulated   (small) the same accessor checks on trajectories produced by the Euler engine for a network
             without reactions and without diffusion (every sample equals the initial state).
 
@@ -146,11 +151,14 @@ def _units_ok(got_units, qunit):
 
 
 class _Checker:
-    def __init__(self, out, stats):
+    def __init__(self, out, stats, prefix=""):
         self.out = out
         self.stats = stats
+        self.prefix = prefix
 
     def fail(self, key, what):
+        if self.prefix:
+            key = "C17:" + self.prefix + key[4:]
         self.out.append((key, what))
 
     def scalar(self, site, tag, got, expected, qunit, ctxt):
@@ -196,15 +204,18 @@ class _Checker:
             return False, None
 
 
-def _check_accessors(tr, ns, nsp, nc, space, qunit, spform, posform, out, stats, triple=None):
-    """all accessor reads of one trajectory for one species form and one position form."""
-    ck = _Checker(out, stats)
+def _check_accessors(tr, ns, nsp, nc, space, qunit, spform, posform, out, stats, triple=None, rev=False, prefix=""):
+    """all accessor reads of one trajectory for one species form and one position form.
+    rev: visit samples / species / cells in decreasing order; prefix: prepended to the site part of the keys."""
+    ck = _Checker(out, stats, prefix)
     kind = space[0]
     ptag = "%s-%s:%s" % (kind, posform, spform)
     stag = "%s:%s" % (kind, spform)
-    samples = range(ns) if triple is None else [triple[0]]
-    speciess = range(nsp) if triple is None else [triple[1]]
-    cells = range(nc) if triple is None else [triple[2]]
+    samples = list(range(ns)) if triple is None else [triple[0]]
+    speciess = list(range(nsp)) if triple is None else [triple[1]]
+    cells = list(range(nc)) if triple is None else [triple[2]]
+    if rev:
+        samples, speciess, cells = samples[::-1], speciess[::-1], cells[::-1]
     desc = "shape(ns=%d,nsp=%d,nc=%d) %s" % (ns, nsp, nc, space)
 
     # whole state: the sample's contiguous block
@@ -383,6 +394,150 @@ def _check_lookup(case, out, stats, only=None):
                         "%s returned %r, expected %s" % (ctxt, got, " or ".join(repr(a) for a in accept))))
 
 
+
+# ---- histories on ONE trajectory object (E2) --------------------------------------------------------
+
+HVALUES = [0.0, 0.25, 0.5, 0.75, 1.0, 1.25, 1.5]
+HLISTS = ["sep", "lat"]
+HLONG_ORDERS = ["v-major", "unit-major", "policy-major", "v-major-reversed"]
+
+
+def _hist_times(name, tunit):
+    """stored sample times (floats, in tunit).  'sep': 2^-7 s, 4 s, 256 s - for every v in 0.25..1.5 the times
+    v ms < 2^-7 s < v s < 4 s < v min < 256 s < v h fall into four different intervals, far from every decision
+    boundary, so the same NUMBER in the four units has four different answers.  'lat': 0.25, 0.75, 1.25 tunit."""
+    if name == "lat":
+        return [0.25, 0.75, 1.25]
+    if name == "sep":
+        return [si.to_float(F(x) / _tscale(tunit)) for x in (F(1, 128), F(4), F(256))]
+    raise ValueError(name)
+
+
+def _accept_set(policy, T, tunit, v, qunit):
+    """accepted answers of one lookup (near-tie rule as in _check_lookup); second item: near tie?"""
+    te = F(v) * _tscale(qunit)
+    accept = [brute(policy, T, te)]
+    if not (qunit == tunit or v == 0.0):
+        for tt in (te - abs(te) * NEAR, te + abs(te) * NEAR):
+            r2 = brute(policy, T, tt)
+            if r2 not in accept:
+                accept.append(r2)
+    return accept
+
+
+def _history_steps(case):
+    """[(v, unit, form, policy)] of one lookup history."""
+    kind = case["kind"]
+    if kind == "orders":
+        v, order, form = case["v"], case["order"], case["form"]
+        if case["nest"] == "unit-major":      # same number, same unit, the three policies in a row; then the next unit
+            return [(v, u, form, p) for u in order for p in POLICIES]
+        return [(v, u, form, p) for p in POLICIES for u in order]
+    if kind == "pairs":
+        v = case["v"]
+        return [x for p in POLICIES for x in ((v, case["ua"], case["fa"], p), (v, case["ub"], case["fb"], p))]
+    if kind == "long":
+        o, form = case["order"], case["form"]
+        if o == "v-major":
+            st = [(v, u, form, p) for v in HVALUES for u in TUNITS for p in POLICIES]
+        elif o == "unit-major":
+            st = [(v, u, form, p) for u in TUNITS for p in POLICIES for v in HVALUES]
+        elif o == "policy-major":
+            st = [(v, u, form, p) for p in POLICIES for v in HVALUES for u in TUNITS]
+        elif o == "v-major-reversed":
+            st = [(v, u, form, p) for v in HVALUES[::-1] for u in TUNITS[::-1] for p in POLICIES[::-1]]
+        else:
+            raise ValueError(o)
+        return st + st            # second pass over the same object: same answers again
+    raise ValueError(kind)
+
+
+def _check_lookup_history(case, out, stats):
+    tunit = case["tunit"]
+    times = _hist_times(case["list"], tunit)
+    T = [F(x) * _tscale(tunit) for x in times]
+    system = _mk_system(1, ["grid", 1, 1, 1])
+    tr = RDTrajectory(UnitArray([0.0] * len(times), "molecule"), UnitArray(times, tunit), system)
+    steps = _history_steps(case)
+    if case.get("upto") is not None:
+        steps = steps[:case["upto"] + 1]
+    seen = {}            # (policy, v) -> accept sets of the earlier steps with the same number
+    seen_v = {}          # v -> accept sets of the earlier steps with the same number (any policy)
+    done = []
+    for n, (v, qunit, form, policy) in enumerate(steps):
+        arg = UnitValue(v, qunit) if form == "UnitValue" else "%r %s" % (v, qunit)
+        shown = repr(arg) if form == "str" else "UnitValue(%r, %r)" % (v, qunit)
+        accept = _accept_set(policy, T, tunit, v, qunit)
+        if len(accept) > 1:
+            stats["near_tie"] += 1
+        if any(not set(a) & set(accept) for a in seen.get((policy, v), [])):
+            stats["history_steps_refuting_a_cache_on_policy_and_number"] += 1
+        if any(not set(a) & set(accept) for a in seen_v.get(v, [])):
+            stats["history_steps_refuting_a_cache_on_number"] += 1
+        seen.setdefault((policy, v), []).append(accept)
+        seen_v.setdefault(v, []).append(accept)
+        stats["transitions"] += 1
+        stats["evaluations"] += 1
+        done.append("(%s, %r)" % (shown, policy))
+        ktail = "%s:%s" % (case["kind"], "same-unit" if qunit == tunit else "cross-unit")
+        ctxt = "t=%r %s, step %d of the history %s on one object: get_sample_index(%s, %r)" % (
+            times, tunit, n, " ".join(done[-9:]) if len(done) <= 9 else "... " + " ".join(done[-9:]), shown, policy)
+        try:
+            got = tr.get_sample_index(arg, policy)
+        except Exception as e:
+            out.append(("C17:get_sample_index-history:%s:unexpected-exception:%s" % (policy, ktail),
+                        "%s raised %s: %s" % (ctxt, type(e).__name__, e)))
+            continue
+        if got is not None and (isinstance(got, bool) or not isinstance(got, numbers.Integral)):
+            out.append(("C17:get_sample_index-history:%s:result-type:%s" % (policy, ktail),
+                        "%s returned %r (%s)" % (ctxt, got, type(got).__name__)))
+            continue
+        if got is not None:
+            got = int(got)
+        if got in accept:
+            continue
+        cls = "none-but-sample-exists" if got is None else ("index-but-no-such-sample" if accept == [None] else "wrong-index")
+        out.append(("C17:get_sample_index-history:%s:%s:%s" % (policy, cls, ktail),
+                    "%s returned %r, expected %s" % (ctxt, got, " or ".join(repr(a) for a in accept))))
+    # the lookups are reads: stored times unchanged
+    stats["evaluations"] += 1
+    try:
+        now = [float(x) for x in tr.t.value]
+        if now != times or uq.sys_of(tr.t.units)[1] != tunit or uq.dim_of(tr.t.units) != (0, 1, 0):
+            out.append(("C17:get_sample_index-history:trajectory-mutated:t",
+                        "after the lookups t = %r %s, it was built as %r %s" % (now, tr.t.units, times, tunit)))
+    except Exception as e:
+        out.append(("C17:get_sample_index-history:trajectory-mutated:t", "t unreadable after the lookups: %s" % e))
+
+
+def _snapshot(tr):
+    return {"data": [float(x) for x in tr.data.value], "data_units": uq.sys_of(tr.data.units) + uq.dim_of(tr.data.units),
+            "t": [float(x) for x in tr.t.value], "t_units": uq.sys_of(tr.t.units) + uq.dim_of(tr.t.units),
+            "state": [float(x) for x in tr.system.state.value]}
+
+
+def _check_accessor_history(case, out, stats):
+    """every species form x position form on ONE object, all triples in increasing order; then the forms in the
+    opposite order with all triples in decreasing order.  Every answer is compared with the oracle (hence the two
+    passes agree), and the trajectory must be unchanged afterwards."""
+    ns, nsp, nc, space = case["ns"], case["nsp"], case["nc"], case["space"]
+    tr, data, qunit = _mk_traj(ns, nsp, nc, space, case["units"])
+    before = _snapshot(tr)
+    combos = [(a, b) for a in SPFORMS for b in (GRID_POSFORMS if space[0] == "grid" else GRAPH_POSFORMS)]
+    passes = [(combos, False), (combos[::-1], True)]
+    if case.get("pass") is not None:
+        passes = passes[:case["pass"] + 1]
+    for combo_list, rev in passes:
+        for spform, posform in combo_list:
+            _check_accessors(tr, ns, nsp, nc, space, qunit, spform, posform, out, stats, rev=rev, prefix="history-")
+    after = _snapshot(tr)
+    for k in ("data", "data_units", "t", "t_units", "state"):
+        stats["evaluations"] += 1
+        if after[k] != before[k]:
+            out.append(("C17:history-accessors:trajectory-mutated:%s" % k,
+                        "shape(ns=%d,nsp=%d,nc=%d) %s: after reading every triple through every accessor %s = %r, before %r"
+                        % (ns, nsp, nc, space, k, after[k], before[k])))
+
 # ---- unknown species -------------------------------------------------------------------------------
 
 def _check_unknown(case, out, stats):
@@ -468,7 +623,8 @@ def _check_simulated(case, out, stats):
 
 _STAT_KEYS = ("transitions", "evaluations", "near_tie", "near_tie_not_lattice_answer",
               "dup_any_of_equal_times", "none_expected", "exact_ties_closest", "unknown_species_rejected",
-              "simulated_shape_unexpected")
+              "simulated_shape_unexpected", "history_steps_refuting_a_cache_on_policy_and_number",
+              "history_steps_refuting_a_cache_on_number")
 
 
 def _new_stats():
@@ -489,6 +645,10 @@ def check_case(case, stats=None):
                              triple=case.get("triple"))
         elif sub in ("lookup", "lookup-dup"):
             _check_lookup(case, out, stats, only=case.get("only"))
+        elif sub == "lookup-history":
+            _check_lookup_history(case, out, stats)
+        elif sub == "accessor-history":
+            _check_accessor_history(case, out, stats)
         elif sub == "unknown":
             _check_unknown(case, out, stats)
         elif sub == "simulated":
@@ -562,28 +722,92 @@ def _spaces(tier):
                gen_unknown, 27 * 2 * len(BAD_SPECIES) * len(ACCESSORS_WITH_SPECIES), 60))
 
     TL = time_lists()
+    # (storage unit, query unit, form).  thorough: all 16 ordered unit pairs x both forms.  quick: the 4 same-unit
+    # pairs + every unordered cross pair in one direction (each unit is storage unit and query unit of some cross
+    # pair), both forms; the duplicated-time lists take the same-unit pairs in both forms + the 4 cyclic cross pairs.
+    same = [(u, u) for u in TUNITS]
+    cyc = [("s", "ms"), ("ms", "min"), ("min", "h"), ("h", "s")]
+    if tier == "thorough":
+        upf = [(a, b, f) for a in TUNITS for b in TUNITS for f in QFORMS]
+        upf_dup = upf
+    else:
+        upf = [(a, b, f) for (a, b) in same + cyc + [("min", "s"), ("h", "ms")] for f in QFORMS]
+        upf_dup = [(a, b, f) for (a, b) in same for f in QFORMS] + [(a, b, "UnitValue") for (a, b) in cyc]
 
     def gen_lookup():
         for times in TL:
-            for tunit in TUNITS:
-                for qunit in TUNITS:
-                    for form in QFORMS:
-                        yield {"sub": "lookup", "times": times, "tunit": tunit, "qunit": qunit, "form": form}
-    sp.append(("lookup: %d strictly increasing time lists (length 1..4 over 7 lattice points) x 4 storage units x 4 query "
-               "units x {UnitValue,str}; 17 queries x 3 policies inside" % len(TL),
-               gen_lookup, len(TL) * 16 * 2, 40))
+            for (tunit, qunit, form) in upf:
+                yield {"sub": "lookup", "times": times, "tunit": tunit, "qunit": qunit, "form": form}
+    sp.append(("lookup: %d strictly increasing time lists (length 1..4 over 7 lattice points) x %d (storage unit, query "
+               "unit, UnitValue|str) combinations; 17 queries x 3 policies inside" % (len(TL), len(upf)),
+               gen_lookup, len(TL) * len(upf), 40))
 
     TD = time_lists_dup()
 
     def gen_dup():
         for times in TD:
-            for tunit in TUNITS:
-                for qunit in TUNITS:
-                    for form in QFORMS:
-                        yield {"sub": "lookup-dup", "times": times, "tunit": tunit, "qunit": qunit, "form": form}
-    sp.append(("lookup-dup: %d non-decreasing time lists with one duplicated time (length 2..4) x 4 x 4 units x 2 forms; "
-               "17 queries x 3 policies inside" % len(TD),
-               gen_dup, len(TD) * 16 * 2, 40))
+            for (tunit, qunit, form) in upf_dup:
+                yield {"sub": "lookup-dup", "times": times, "tunit": tunit, "qunit": qunit, "form": form}
+    sp.append(("lookup-dup: %d non-decreasing time lists with one duplicated time (length 2..4) x %d (storage unit, query "
+               "unit, form) combinations; 17 queries x 3 policies inside" % (len(TD), len(upf_dup)),
+               gen_dup, len(TD) * len(upf_dup), 40))
+
+    # ---- histories on one object
+    htunits = TUNITS if tier == "thorough" else ["s", "min"]
+    nestform = ([(n, f) for n in ("unit-major", "policy-major") for f in QFORMS] if tier == "thorough" else
+                [("unit-major", "UnitValue"), ("policy-major", "UnitValue"), ("unit-major", "str")])
+    orders = [list(o) for o in itertools.permutations(TUNITS)]
+
+    def gen_horders():
+        for lst in HLISTS:
+            for tunit in htunits:
+                for v in HVALUES:
+                    for order in orders:
+                        for (nest, form) in nestform:
+                            yield {"sub": "lookup-history", "kind": "orders", "list": lst, "tunit": tunit, "v": v,
+                                   "order": order, "nest": nest, "form": form}
+    sp.append(("lookup-history/orders: ONE object per history; the same number in s, ms, min, h in each of the 24 orders "
+               "x 3 policies (12 lookups), x 7 numbers x 2 time lists x storage units %s x %d (nesting, form) variants"
+               % (htunits, len(nestform)),
+               gen_horders, len(HLISTS) * len(htunits) * len(HVALUES) * 24 * len(nestform), 100))
+
+    def gen_hpairs():
+        for lst in HLISTS:
+            for tunit in htunits:
+                for v in HVALUES:
+                    for ua in TUNITS:
+                        for ub in TUNITS:
+                            if ua != ub:
+                                for fa in QFORMS:
+                                    for fb in QFORMS:
+                                        yield {"sub": "lookup-history", "kind": "pairs", "list": lst, "tunit": tunit,
+                                               "v": v, "ua": ua, "ub": ub, "fa": fa, "fb": fb}
+    sp.append(("lookup-history/pairs: ONE object; the same number in every ordered pair of different units x "
+               "{UnitValue,str}^2, for each policy (6 lookups), x 7 numbers x 2 time lists x storage units %s" % (htunits,),
+               gen_hpairs, len(HLISTS) * len(htunits) * len(HVALUES) * 12 * 4, 200))
+
+    def gen_hlong():
+        for lst in HLISTS:
+            for tunit in htunits:
+                for form in QFORMS:
+                    for o in HLONG_ORDERS:
+                        yield {"sub": "lookup-history", "kind": "long", "list": lst, "tunit": tunit, "form": form, "order": o}
+    sp.append(("lookup-history/long: ONE object; all 7 numbers x 4 units x 3 policies in 4 global orders, whole sequence "
+               "twice (168 lookups), x 2 forms x 2 time lists x storage units %s" % (htunits,),
+               gen_hlong, len(HLISTS) * len(htunits) * len(QFORMS) * len(HLONG_ORDERS), 2))
+
+    hncs = (1, 2, 3) if tier != "thorough" else (1, 2, 3, 4, 6)
+    hvariants = (0, 2) if tier != "thorough" else (0, 1, 2)
+
+    def gen_hacc():
+        for (ns, nsp, nc) in shapes(hncs):
+            for space in arrangements(nc):
+                for u in hvariants:
+                    yield {"sub": "accessor-history", "ns": ns, "nsp": nsp, "nc": nc, "space": space, "units": u}
+    sp.append(("accessor-history: ONE object per (shape, arrangement, unit variant) with ncells in %s, unit variants %s; "
+               "every species form x position form x triple through every accessor in increasing order, then all forms "
+               "and triples in the opposite order; trajectory unchanged afterwards" % (list(hncs), list(hvariants)),
+               gen_hacc, 9 * sum(len(arrangements(nc)) for nc in hncs) * len(hvariants), 4))
 
     def gen_sim():
         for nsp in (1, 2, 3):
@@ -601,6 +825,10 @@ def _nontrivial(case):
         return case["ns"] * case["nsp"] * case["nc"] > 1
     if sub in ("lookup", "lookup-dup"):
         return len(case["times"]) > 1 or case["tunit"] != case["qunit"]
+    if sub == "lookup-history":
+        return case.get("v", 1.0) != 0.0          # the number 0 is the same time in every unit
+    if sub == "accessor-history":
+        return case["ns"] * case["nsp"] * case["nc"] > 1
     if sub == "simulated":
         return case["nsp"] * case["nc"] > 1
     return True
@@ -637,6 +865,7 @@ def _work(job):
         if stats[k]:
             acc.count("lookup_" + k if k in ("near_tie", "near_tie_not_lattice_answer", "none_expected",
                                              "exact_ties_closest", "dup_any_of_equal_times") else k, stats[k])
+
     return acc.pack()
 
 
@@ -664,6 +893,20 @@ def _minimise(ctx):
                             break
                     if done:
                         break
+            elif case.get("sub") == "lookup-history" and "upto" not in case:
+                for n in range(len(_history_steps(case))):
+                    c2 = dict(case)
+                    c2["upto"] = n
+                    hit = [w for (kk, w) in check_case(c2) if kk == v.key]
+                    if hit:
+                        v.case, v.what = c2, hit[0]
+                        break
+            elif case.get("sub") == "accessor-history" and "pass" not in case:
+                c2 = dict(case)
+                c2["pass"] = 0
+                hit = [w for (kk, w) in check_case(c2) if kk == v.key]
+                if hit:
+                    v.case, v.what = c2, hit[0]
             elif case.get("sub") in ("lookup", "lookup-dup") and "only" not in case:
                 done = False
                 for qi in range(len(QUERIES)):
@@ -702,7 +945,8 @@ def run(ctx):
                          "time_units": TUNITS, "unit_variants": [list(map(str, v)) for v in UNIT_VARIANTS]})
     ctx.rule("every case of each sub-space is enumerated in fixed order on real RDTrajectory objects; inside an accessor "
              "case every (sample, species, cell) triple is read through every accessor; inside a lookup case all 17 "
-             "queries x 3 policies are evaluated; an accessor case is non-trivial when the flat array has more than one "
+             "queries x 3 policies are evaluated; a history case issues its whole call sequence on ONE trajectory object and "
+             "every answer of the sequence is compared with the oracle; an accessor case is non-trivial when the flat array has more than one "
              "entry, a lookup case when it has more than one sample or the query unit differs from the storage unit; "
              "cases are distinct tuples of the product")
     ctx.assume("cell index of grid coordinates i = z*w*h + y*w + x (documentation/indexing.rst); exact SI scales of "
